@@ -116,8 +116,8 @@ def pushMove (w : World) (z : ZTable) (b : Nat) (m : Move) : Option World :=
     let reps := repSet bd.repetitions n.hash (repGet bd.repetitions n.hash + 1)
     let ply := bd.ply + 1
     let moves := if turn = .white then bd.moves + 1 else bd.moves
-    -- (3) draw conditions
-    let result := bd.result
+    -- (3) draw conditions (the result is re-opened first)
+    let result : Result := {}
     let result :=
       if repGet reps n.hash ≥ (Gen.repetition3Limit : Int) then
         let actual := identicalPositionCount w n turn turn.opp n.noprogress
